@@ -188,10 +188,19 @@ def rule_drain(ctx, M, u):
                 ok, bad = bi.must_reach([t for _, t in se], [s.block], [lp[0]] + list(bi.return_blocks))
                 if ok:
                     good_kr.append((s, nxt))
+    drains = bool(good_kr) and scan.loop_item_root(good_kr[0][0].arg(1))[2][0][1][1] == "drain"
     if len(good_kr) != 1:
         probs.append("no loop removing every queued key from `keys`")
-    if len(cl) != 1:
+    if len(cl) != 1 and not drains:
         probs.append("the key removal queue is not cleared exactly once")
+    if drains and not cl:
+        # `for key in queue.drain(..)` empties the queue by itself: the loop is the clearing
+        class _C:
+            pass
+        c_ = _C()
+        c_.block = good_kr[0][1].block
+        nx_ = good_kr[0][1]
+        cl = [c_]
     ne = bi.outcome_edges(c.site, "Ready", "None")
     if good_kr and cl and ne:
         s, nxt = good_kr[0]
@@ -209,7 +218,7 @@ def rule_drain(ctx, M, u):
                 probs.append("%s is not reached on every path from a member's end to the return" % name)
         # clear only after the loop is exhausted
         exit_e = bi.outcome_edges(nxt, "None")
-        if not exit_e or not bi.guarded_by(cl[0].block, exit_e):
+        if not drains and (not exit_e or not bi.guarded_by(cl[0].block, exit_e)):
             probs.append("the queue is cleared before every queued key was removed")
     ctx.check(not probs, "C12.DRAIN", u.where, "queued keys are all removed from `keys`, then the queue is cleared, before the return",
               site=u.body.span, path=probs)
@@ -245,9 +254,8 @@ def rule_none(ctx, M, u):
             probs.append("no test ended == number of members (read before the scan)")
     nones = [r for r in flow.returned_values(bi) if r[1] == "Ready(None)"]
     empties = []
-    for s in bi.sites:
-        if s.key == ("Slab", "is_empty"):
-            empties += bi.outcome_edges(s, True)
+    for blk_, eds_ in grouplike.empty_tests(bi, sf("streams")):
+        empties += eds_
     late = [r for r in nones if not bi.guarded_by(r[0], empties)]
     if not late:
         probs.append("Ready(None) is never produced when the last members end during a poll")
